@@ -61,8 +61,8 @@ theorem mem_padNat {c w n : Nat} (h : c ∈ padLeft 48 w (natDigits n)) : Plain 
   | inl h => subst h; exact plain_48
   | inr h => exact mem_natDigits h
 
-theorem mem_renderInterval {c : Nat} {n : Int} (h : c ∈ renderInterval n) : Plain c := by
-  simp only [renderInterval, List.mem_append, List.mem_singleton] at h
+theorem mem_renderIntervalAbs {c : Nat} {n : Int} (h : c ∈ renderIntervalAbs n) : Plain c := by
+  simp only [renderIntervalAbs, List.mem_append, List.mem_singleton] at h
   rcases h with ((((((h | h) | h) | h) | h) | h) | h)
   · exact mem_padInt h
   · subst h; exact Or.inr (by simp)
@@ -71,6 +71,14 @@ theorem mem_renderInterval {c : Nat} {n : Int} (h : c ∈ renderInterval n) : Pl
   · exact mem_padInt h
   · subst h; exact Or.inr (by simp)
   · exact mem_padInt h
+
+theorem mem_renderInterval {c : Nat} {n : Int} (h : c ∈ renderInterval n) : Plain c := by
+  unfold renderInterval at h
+  split at h
+  · rcases List.mem_cons.1 h with h | h
+    · subst h; exact Or.inr (by simp)
+    · exact mem_renderIntervalAbs h
+  · exact mem_renderIntervalAbs h
 
 theorem mem_renderYear {c : Nat} {y : Int} (h : c ∈ renderYear y) : Plain c := by
   unfold renderYear at h
